@@ -35,15 +35,8 @@ Proof.
   assert (E9 : map_err (fun _ => EHeaderIo) (read_raw 9) (enc_header (mkHeader 132 fl st op len) ++ tail)
                = (Ok (enc_header (mkHeader 132 fl st op len), tail), c0)).
   { unfold map_err, read_raw. rewrite <- (enc_header_len (mkHeader 132 fl st op len)), ntake_app. reflexivity. }
-  assert (Ein : run (v <- read_u8 ;;
-                if N.land v 128 =? 0 then fail EFrameFromClient
-                else if negb (N.land v 127 =? 4) then fail EVersionNotSupported
-                else
-                  fl <- read_u8 ;; st <- read_be 2 ;; op <- read_u8 ;;
-                  if negb (opcode_ok op) then fail EUnknownOpcode
-                  else len <- read_be 4 ;; ret (mkHeader v fl (to_signed 16 st) op len))
-               (enc_header (mkHeader 132 fl st op len)) = Ok (mkHeader 132 fl st op len, [])).
-  { unfold enc_header. cbn [h_version h_flags h_stream h_opcode h_length app].
+  assert (Ein : run parse_header (enc_header (mkHeader 132 fl st op len)) = Ok (mkHeader 132 fl st op len, [])).
+  { unfold parse_header, enc_header. cbn [h_version h_flags h_stream h_opcode h_length app].
     rewrite run_bind, run_read_u8_one by lia. cbv beta iota.
     change (N.land 132 128 =? 0) with false. change (negb (N.land 132 127 =? 4)) with false. cbv iota.
     rewrite run_bind, run_read_u8_one by exact Hf. cbv beta iota.
@@ -77,36 +70,12 @@ Proof. unfold run. destruct (p b) as [y c]. cbn. intros ->. eauto. Qed.
 Section Top.
 Variable custom : custom_parser.
 Variables (compress : bytes -> bytes) (decompress : bytes -> option bytes).
-Hypothesis codec_inverse : forall b, decompress (compress b) = Some b.
 
 Lemma wf_frame_header ft v2 cmp f :
   wf_frame compress ft v2 cmp f -> wf_header (d_header f).
 Proof.
   intros (Hv & Hf & Hs & Ho & Hl & Hl2 & _). repeat split; try assumption; try lia.
   rewrite Ho. destruct (d_resp f); reflexivity.
-Qed.
-
-(* C08_roundtrip *)
-Lemma decode_encode ft v2 cmp f rest :
-  wf_frame compress ft v2 cmp f ->
-  fst (decode_frame custom decompress ft v2 cmp (encode_frame compress ft f ++ rest)) = ODone f.
-Proof.
-  intros W. pose proof (wf_frame_header _ _ _ _ W) as Wh.
-  destruct W as (Hv & Hf & Hs & Ho & Hl & Hl2 & Hc & Wx & Wr).
-  unfold decode_frame, encode_frame. rewrite <- app_assoc, (read_frame_header _ _ Wh).
-  rewrite Hl, ntake_app.
-  assert (Eb : (if bit (h_flags (d_header f)) 1
-                then if cmp then match decompress (wire_body compress ft f) with Some d => Ok d | None => Err EDecompress end
-                     else Err ENoCompression
-                else Ok (wire_body compress ft f)) = @Ok ferr bytes (enc_body ft f)).
-  { unfold wire_body. destruct (bit (h_flags (d_header f)) 1) eqn:Eb; [|reflexivity].
-    rewrite (Hc eq_refl), codec_inverse. reflexivity. }
-  rewrite Eb. unfold enc_body.
-  destruct (pair_of_run _ _ _ (run_deser_extensions_enc (h_flags (d_header f)) (d_ext f)
-                                 (enc_response ft (d_resp f)) Wx)) as (c1 & ->).
-  pose proof (run_deser_response_enc custom ft v2 (d_resp f) [] Wr) as R. rewrite app_nil_r in R.
-  rewrite <- Ho in R. destruct (pair_of_run _ _ _ R) as (c2 & ->). cbn [fst].
-  destruct f as [h x rr]. reflexivity.
 Qed.
 
 (* C08_truncation, frame level: any strict prefix of the encoded frame is rejected *)
@@ -146,10 +115,11 @@ Proof.
   intros W Hb Hq h h'. pose proof (wf_frame_header _ _ _ _ W) as Wh.
   destruct W as (Hv & Hf & Hs & Ho & Hl & Hl2 & Hc & Wx & Wr).
   assert (Wh' : wf_header h').
-  { destruct Wh as (A & B & C & D & E). repeat split; try assumption.
-    cbn [h_length h']. apply sprefix_len in Hq. unfold wire_body in Hl. fold h in Hl. rewrite Hb in Hl. lia. }
-  unfold decode_frame. rewrite (read_frame_header _ _ Wh'). cbn [h_length h']. rewrite ntake_app.
-  cbn [h_flags h_opcode]. fold h. rewrite Hb.
+  { destruct Wh as (A & B & C & D & E). apply sprefix_len in Hq. unfold wire_body in Hl. rewrite Hb in Hl.
+    unfold wf_header, h', h. cbn [h_version h_flags h_stream h_opcode h_length].
+    repeat split; try assumption; lia. }
+  unfold decode_frame. rewrite (read_frame_header _ _ Wh'). unfold h'. cbn [h_length]. rewrite ntake_app.
+  cbn [h_flags h_opcode]. unfold h at 1. rewrite Hb.
   (* the two body stages as one parser *)
   pose proof (psafe_deser_body custom ft v2 (h_flags h) (h_opcode h)) as PS.
   assert (R : run (deser_body custom ft v2 (h_flags h) (h_opcode h)) (enc_body ft f ++ []) = Ok ((d_ext f, d_resp f), [])).
@@ -157,13 +127,40 @@ Proof.
     rewrite (run_deser_extensions_enc (h_flags h) (d_ext f) _ Wx). cbv beta iota. rewrite run_bind.
     unfold h at 1. rewrite Ho. rewrite (run_deser_response_enc custom ft v2 (d_resp f) [] Wr). reflexivity. }
   destruct (PS _ _ _ R) as (c & Ec & _ & T).
-  rewrite app_nil_r in Ec. subst c. destruct (T q Hq) as (e & Eq).
-  unfold deser_body in Eq. rewrite run_bind in Eq. unfold run in Eq.
+  rewrite !app_nil_r in Ec. subst c. destruct (T q Hq) as (e & Eq).
+  unfold deser_body in Eq. rewrite run_bind in Eq. unfold run at 1 in Eq.
   destruct (deser_extensions (h_flags h) q) as [[[x bd1]|e1] c1]; cbn [fst] in Eq; [|reflexivity].
-  fold (run (deser_response custom ft v2 (h_opcode h)) bd1) in *.
-  rewrite run_bind in Eq. unfold run in Eq.
-  destruct (deser_response custom ft v2 (h_opcode h) bd1) as [[[rr bd2]|e2] c2]; cbn [fst] in Eq; [discriminate|reflexivity].
+  rewrite run_bind in Eq. unfold run at 1 in Eq.
+  destruct (deser_response custom ft v2 (h_opcode h) bd1) as [[[rr bd2]|e2] c2]; cbn [fst] in Eq;
+    [rewrite run_ret in Eq; discriminate|reflexivity].
 Qed.
+
+Section Codec.
+Hypothesis codec_inverse : forall b, decompress (compress b) = Some b.
+(* C08_roundtrip *)
+Lemma decode_encode ft v2 cmp f rest :
+  wf_frame compress ft v2 cmp f ->
+  fst (decode_frame custom decompress ft v2 cmp (encode_frame compress ft f ++ rest)) = ODone f.
+Proof.
+  intros W. pose proof (wf_frame_header _ _ _ _ W) as Wh.
+  destruct W as (Hv & Hf & Hs & Ho & Hl & Hl2 & Hc & Wx & Wr).
+  unfold decode_frame, encode_frame. rewrite <- app_assoc, (read_frame_header _ _ Wh).
+  rewrite Hl, ntake_app.
+  assert (Eb : (if bit (h_flags (d_header f)) 1
+                then if cmp then match decompress (wire_body compress ft f) with Some d => Ok d | None => Err EDecompress end
+                     else Err ENoCompression
+                else Ok (wire_body compress ft f)) = @Ok ferr bytes (enc_body ft f)).
+  { unfold wire_body. destruct (bit (h_flags (d_header f)) 1) eqn:Eb; [|reflexivity].
+    rewrite (Hc eq_refl), codec_inverse. reflexivity. }
+  rewrite Eb. unfold enc_body.
+  destruct (pair_of_run _ _ _ (run_deser_extensions_enc (h_flags (d_header f)) (d_ext f)
+                                 (enc_response ft (d_resp f)) Wx)) as (c1 & ->).
+  pose proof (run_deser_response_enc custom ft v2 (d_resp f) [] Wr) as R. rewrite app_nil_r in R.
+  rewrite <- Ho in R. destruct (pair_of_run _ _ _ R) as (c2 & ->). cbn [fst].
+  destruct f as [h x rr]. reflexivity.
+Qed.
+
+End Codec.
 
 (* C08_fuel_enough *)
 Hypothesis custom_noof : forall s, fst (custom s) <> Err EOutOfFuel.
@@ -171,13 +168,13 @@ Hypothesis custom_noof : forall s, fst (custom s) <> Err EOutOfFuel.
 Lemma read_frame_no_oof b : fst (read_frame b) <> Err EOutOfFuel.
 Proof.
   unfold read_frame, bind, map_err, read_raw. destruct (ntake 9 b) as [[raw rest]|]; [|discriminate]. cbv beta iota.
-  match goal with |- context [run ?p raw] => assert (N : noof p) end.
-  { apply noof_bind; [auto with noof|intros v]. repeat apply noof_if; try (apply noof_fail; discriminate).
+  assert (N : noof parse_header).
+  { unfold parse_header. apply noof_bind; [auto with noof|intros v]. repeat apply noof_if; try (apply noof_fail; discriminate).
     apply noof_bind; [auto with noof|intros fl]. apply noof_bind; [apply noof_read_be|intros st].
     apply noof_bind; [auto with noof|intros op]. apply noof_if; [apply noof_fail; discriminate|].
     apply noof_bind; [apply noof_read_be|intros len]. apply noof_ret. }
   specialize (N raw).
-  match goal with |- context [run ?p raw] => destruct (run p raw) as [[h ?]|e] eqn:E end.
+  destruct (run parse_header raw) as [[h ?]|e] eqn:E.
   - destruct (ntake (h_length h) rest) as [[? ?]|]; discriminate.
   - cbn [fst]. congruence.
 Qed.
